@@ -10,7 +10,7 @@ LEAN_MODULES = ["Pff.Props.C16"]
 PROP_MODULE = "Pff.Props.C16"
 THEOREMS = ["Pff.Rfigc.C16_remove_only_missing", "Pff.Rfigc.C16_append_once", "Pff.Rfigc.C16_initial_consistent",
             "Pff.Rfigc.C16_converge", "Pff.Rfigc.C16_stale_witness"]
-MODELLED = [("pyFileFixity/rfigc.py", "main")]
+MODELLED = [("pyFileFixity/rfigc.py", "main"), ("pyFileFixity/lib/_compat.py", "_csv_writer")]
 TRUSTED_BASE = [
     "Lean 4.33.0 kernel; axioms per theorem under coverage.theorems (subset of propext, Classical.choice, Quot.sound)",
     "hand-written model lean/Pff/Model/Rfigc.lean (update = removal pass then append pass, single-file filter), tied to /repo by running "
@@ -143,6 +143,14 @@ def run(oc, tier, seed, model_available, escalate):
             oc.distinct.add(lines[-1])
         if i % max(1, n // 4) == 0:
             oc.sample({"request": lines[-1][:500], "impl_reply": impl[-1][:300]})
+    # ---- csv layer: the repo's writer and Python's reader with the tools' parameters vs the Lean model (Pff.Csv), and the real round trip
+    import csv_x
+    cl, ci, cbad = csv_x.cases(rng, (100 if tier == "quick" else 1500) * (2 if escalate else 1), os.path.join(d, "csv"), oc)
+    lines += cl
+    impl += ci
+    for b_ in cbad[:3]:
+        oc.violations.append({"input": {"rows": b_["rows"]}, "impl": {"text": b_["text"], "read_back": b_["read_back"]},
+                              "what": "rows written to a csv file with the tools' writer are not read back identically by the tools' reader"})
     ru.rmtree(d)
     if model_available:
         model, err = common.run_driver(lines)
